@@ -131,7 +131,7 @@ hist:
 				}
 				var ctor []evmasm.Step
 				ctor = append(ctor, p.pre...)
-				ctor = append(ctor, p.steps...)
+				ctor = append(ctor, p.steps[1:]...) // without the calldata guard (a constructor has no calldata)
 				args.To, args.Data = nil, evmasm.InitCode(ctor, []evmasm.Step{evmasm.Stop{}})
 				args.Nonce = n.EthNonce(a.Eth)
 				addrs = append(sub, p.targets()...)
@@ -145,7 +145,7 @@ hist:
 					continue
 				}
 				to := p.addr
-				args.To = &to
+				args.To, args.Data = &to, []byte{1}
 				if rng.Intn(5) == 0 {
 					args.Gas = uint64(21000 + rng.Intn(40000)) // likely out of gas
 				}
